@@ -169,8 +169,14 @@ class GarbageCollector:
 
         try:
             markers = self.storage.list_files(INFLIGHT_PATH)
-        except Exception:
-            markers = []
+        except Exception as e:
+            # Without the marker listing we do not know which unreferenced
+            # files belong to transactions in flight. Treating the failure as
+            # "no markers" deleted their files; abort instead (fail closed).
+            raise GarbageCollectionAborted(
+                f"Aborting GC: cannot list in-flight markers under {INFLIGHT_PATH}: {e}. "
+                f"Nothing was deleted."
+            ) from e
 
         for marker_path in markers:
             norm_marker = self._normalize_path(marker_path)
